@@ -159,4 +159,27 @@ theorem sigmaOf_injective (tbl : List Nat) (bound : Nat) (h : sigmaOk tbl bound 
   · rw [if_neg hx, if_neg hy] at hxy
     omega
 
+/-- What the executable `embedsNeeded` gives: the hypothesis `hD` of `denote_embed` for the computed set
+    `D := (· ∈ needed p w)` — closure under references is proved (`needed_closed`), not assumed. -/
+theorem embedsNeeded_spec (p p' : List PNode) (hwf : WF p) (σ : Nat → Nat) (w : List Nat)
+    (hemb : embedsNeeded p p' σ w = true) :
+    ∀ k, k ∈ needed p w → ∃ n, nodeAt p k = some n ∧ nodeAt p' (σ k) = some (mapNode σ n) ∧
+      (∀ r, some r ∈ n.inputs → r.node ∈ needed p w) ∧
+      (∀ g ∈ n.subs, ∀ r ∈ g.results, r.node ∈ needed p w) := by
+  intro k hk
+  unfold embedsNeeded at hemb
+  rw [List.all_eq_true] at hemb
+  have h := hemb k hk
+  cases hn : nodeAt p k with
+  | none => rw [hn] at h; cases h
+  | some n =>
+    rw [hn] at h
+    simp only [decide_eq_true_eq] at h
+    refine ⟨n, rfl, ?_, ?_, ?_⟩
+    · rw [h, renNode_eq_mapNode]
+    · intro r hr
+      exact needed_closed p hwf _ k n hk hn _ (mem_refs_input hr)
+    · intro g hg r hr
+      exact needed_closed p hwf _ k n hk hn _ (mem_refs_sub hg hr)
+
 end Prog
